@@ -294,3 +294,454 @@ class C09Check(StatCheck):
 
 
 CHECKS = [C08Check, C09Check]
+
+
+# ----------------------------------------------------------------------------------------------
+# C04
+# ----------------------------------------------------------------------------------------------
+
+import numpy as np   # noqa: E402
+from ixai.explainer import IncrementalPFI   # noqa: E402
+from ixai.explainer.sage import IncrementalSage, BatchSage, IntervalSage   # noqa: E402
+from ixai.imputer import MarginalImputer   # noqa: E402
+from ixai.storage import BatchStorage, IntervalStorage   # noqa: E402
+from ixai.utils.wrappers.base import Wrapper   # noqa: E402
+
+
+def c04_row(tag, d):
+    return {"f%d" % j: tag * 8 + j + 1 for j in range(d)}
+
+
+def c04_tag(v):
+    return (int(v) - 1) // 8
+
+
+class _Model(Wrapper):
+    def __init__(self, d):
+        super().__init__(None, None)
+        self.d = d
+        self.log = []
+        self.coef = [0.5, -1.25, 2.0, 0.75][:d]
+
+    def f(self, x):
+        vals = [x["f%d" % j] % 8 + (x["f%d" % j] // 8) * 0.37 for j in range(self.d)]
+        out = sum(c * v for c, v in zip(self.coef, vals))
+        if self.d >= 2:
+            out += 0.11 * vals[0] * vals[1]
+        return out
+
+    def __call__(self, x):
+        if isinstance(x, dict):
+            self.log.append(x)
+            return {"output": self.f(x)}
+        return [{"output": self.f(r)} for r in x]
+
+
+def sq_loss(y, p):
+    return (y - p["output"]) ** 2
+
+
+def make_storage(kind, m):
+    if kind == "uniform":
+        return UniformReservoirStorage(size=m + 2, store_targets=True)
+    if kind == "geometric":
+        return GeometricReservoirStorage(size=m, store_targets=True)
+    if kind == "interval":
+        return IntervalStorage(size=m, store_targets=True)
+    return BatchStorage(store_targets=True)
+
+
+class C04Check(StatCheck):
+    prop = "C04"
+    design_ref = "DESIGN.md section 4, C04"
+    oracle_name = "sampling-law"
+    rule = ("cells (explainer, strategy, d, m, n_inner, storage kind): the same explanation step repeated R times under one "
+            "seeded stream (alpha=1, update_storage=False: i.i.d. trials); from the model seam each trial yields the feature "
+            "order and the stored-row index behind every imputed value; hypotheses: order vs 1/d!, row index vs 1/m per "
+            "chain step / observation position, product-strategy pair table vs 1/m^2; joint strategy = one row for all "
+            "features (deterministic); Monte-Carlo mean contribution vs exhaustive enumeration (|z| > 7.5)")
+    assumptions = ["stored rows carry unique values per (row, feature), so every imputed value identifies its source row",
+                   "order statistics drop trials whose order is not identifiable from the inputs (independent of the order)"]
+
+    def cells(self, tier):
+        out = []
+        ds = (2, 3) if tier == "quick" else (2, 3, 4)
+        ms = (2, 3, 5) if tier == "quick" else (2, 3, 5, 8)
+        kinds = ["batch", "uniform", "geometric", "interval"]
+        i = 0
+        for ex in ("pfi", "sage", "many", "orig", "interval"):
+            for d in ds:
+                for m in ms:
+                    strategies = ("joint", "product") if ex in ("pfi", "sage", "many") else ("joint",)
+                    for st in strategies:
+                        n = 1 + (i % 2)
+                        if tier == "quick" and (i % 3 == 2) and ex != "orig":
+                            i += 1
+                            continue
+                        out.append({"explainer": ex, "strategy": st, "d": d, "m": m, "n": n, "storage": kinds[i % 4]})
+                        i += 1
+        return out
+
+    def R(self, tier, cell):
+        base = 40000 if tier == "quick" else 1200000
+        work = cell["d"] * cell["n"] * (cell["m"] if cell["explainer"] in ("many", "orig", "interval") else 1)
+        return max(6000 if tier == "quick" else 100000, base // max(1, work // 2))
+
+    # -- exhaustive expectation (incremental explainers) ----------------------------------------------
+    @staticmethod
+    def expected_contributions(cell, model, rows, x, y, l0):
+        d, m, n, st = cell["d"], cell["m"], cell["n"], cell["strategy"]
+        names = ["f%d" % j for j in range(d)]
+
+        def value(imputed):
+            """E[ loss(y, mean of n predictions with `imputed` features resampled) ]"""
+            imputed = list(imputed)
+            if not imputed:
+                return sq_loss(y, {"output": model.f(x)})
+            if st == "joint":
+                per_sample = [[{f: r[f] for f in imputed}] for r in rows]
+                per_sample = [ps[0] for ps in per_sample]
+            else:
+                per_sample = [dict(zip(imputed, combo)) for combo in
+                              itertools.product(*[[r[f] for r in rows] for f in imputed])]
+            if len(per_sample) ** n > 20000:
+                return None
+            tot = 0.0
+            cnt = 0
+            for combo in itertools.product(per_sample, repeat=n):
+                preds = [model.f({**x, **sv}) for sv in combo]
+                tot += sq_loss(y, {"output": sum(preds) / n})
+                cnt += 1
+            return tot / cnt
+
+        if cell["explainer"] == "pfi":
+            # PFI averages the n losses (not the predictions)
+            out = {}
+            for f in names:
+                vals = [sq_loss(y, {"output": model.f({**x, f: r[f]})}) for r in rows]
+                out[f] = sum(vals) / len(vals) - sq_loss(y, {"output": model.f(x)})
+            return out
+        cache = {}
+
+        def v(imputed):
+            key = tuple(sorted(imputed))
+            if key not in cache:
+                cache[key] = value(key)
+            return cache[key]
+        out = {f: 0.0 for f in names}
+        perms = list(itertools.permutations(names))
+        for order in perms:
+            prev = l0
+            rem = set(names)
+            for f in order:
+                rem.discard(f)
+                cur = v(rem)
+                if cur is None:
+                    return None
+                out[f] += (prev - cur) / len(perms)
+                prev = cur
+        return out
+
+    def sample(self, cell, R, rs):
+        ex, st, d, m, n = cell["explainer"], cell["strategy"], cell["d"], cell["m"], cell["n"]
+        names = ["f%d" % j for j in range(d)]
+        seams.reseed(rs)
+        model = _Model(d)
+        rows = [c04_row(r, d) for r in range(m)]
+        ys = [float((3 * r) % 5) - 1.5 for r in range(m)]
+        fam = Family()
+        det = None
+        probes = Counter()
+        order_counts = Counter()
+        row_counts = Counter()        # (slot label, row index) -> count
+        row_trials = Counter()        # slot label -> trials
+        pair_counts = Counter()
+        pair_trials = 0
+        contrib_sum = None
+        contrib_sq = None
+        n_contrib = 0
+        expected = None
+
+        def decode_step(inputs, x_ref, explained_pos=None):
+            """inputs: the n model inputs of one chain step.  Returns (revealed set or None, [per-sample row info])."""
+            infos = []
+            revealed = None
+            for inp in inputs:
+                tags = {f: c04_tag(inp[f]) for f in names}
+                infos.append(tags)
+                same = {f for f in names if inp[f] == x_ref[f]}
+                revealed = same if revealed is None else (revealed & same)
+            return revealed, infos
+
+        if ex in ("pfi", "sage"):
+            storage = make_storage(cell["storage"], m)
+            for r, yy in zip(rows, ys):
+                storage.update(r, yy)
+            imputer = MarginalImputer(model, st, storage)
+            cls = IncrementalPFI if ex == "pfi" else IncrementalSage
+            e = cls(model_function=model, loss_function=sq_loss, feature_names=names, storage=storage, imputer=imputer,
+                    n_inner_samples=n, dynamic_setting=True, smoothing_alpha=1.0)
+            x, y = c04_row(100, d), 2.25
+            e.explain_one(x, y, update_storage=False)       # first call only counts the sample
+            l0 = sq_loss(y, {"output": model.f(x)})
+            expected = self.expected_contributions(cell, model, rows, x, y, l0)
+            contrib_sum = {f: 0.0 for f in names}
+            contrib_sq = {f: 0.0 for f in names}
+            for _ in range(R):
+                del model.log[:]
+                vals = e.explain_one(x, y, update_storage=False)
+                log = model.log
+                if len(log) != 1 + d * n:
+                    det = ("evaluation-count", "%d model evaluations in one step, expected %d" % (len(log), 1 + d * n))
+                    break
+                for f in names:
+                    v = float(vals[f])
+                    contrib_sum[f] += v
+                    contrib_sq[f] += v * v
+                n_contrib += 1
+                if ex == "pfi":
+                    for j, f in enumerate(names):
+                        for s in range(n):
+                            inp = log[1 + j * n + s]
+                            lab = "row:pfi:%s" % f
+                            row_counts[(lab, c04_tag(inp[f]))] += 1
+                            row_trials[lab] += 1
+                    continue
+                order = []
+                known = set()
+                ok = True
+                for j in range(d):
+                    inputs = log[1 + j * n: 1 + (j + 1) * n]
+                    revealed, infos = decode_step(inputs, x)
+                    new = revealed - known
+                    if len(new) != 1 or not known <= revealed:
+                        ok = False
+                        det = ("chain-shape", "step %d reveals %r after %r" % (j, sorted(revealed), sorted(known)))
+                        break
+                    f_new = next(iter(new))
+                    order.append(f_new)
+                    known = revealed
+                    imputed = [f for f in names if f not in revealed]
+                    for tags in infos:
+                        if not imputed:
+                            continue
+                        if st == "joint":
+                            rs_ = {tags[f] for f in imputed}
+                            if len(rs_) != 1:
+                                det = ("joint-rows-mixed", "joint strategy imputed %r from rows %r" % (imputed, sorted(rs_)))
+                                ok = False
+                                break
+                            lab = "row:sage:step%d" % j
+                            row_counts[(lab, next(iter(rs_)))] += 1
+                            row_trials[lab] += 1
+                        else:
+                            for f in imputed:
+                                lab = "row:sage:step%d:%s" % (j, f)
+                                row_counts[(lab, tags[f])] += 1
+                                row_trials[lab] += 1
+                            if j == 0 and len(imputed) >= 2:
+                                pair_counts[(tags[imputed[0]], tags[imputed[1]], imputed[0], imputed[1])] += 1
+                    if not ok:
+                        break
+                if not ok:
+                    break
+                order_counts[tuple(order)] += 1
+        else:
+            # batch explainers: per-observation chains
+            if ex == "many":
+                st_obj = BatchStorage(store_targets=True)
+                for r, yy in zip(rows, ys):
+                    st_obj.update(r, yy)
+                if st == "joint":       # the explainer's own default imputer
+                    e = BatchSage(model_function=model, feature_names=names, loss_function=sq_loss, n_inner_samples=n,
+                                  storage=st_obj)
+                else:
+                    e = BatchSage(model_function=model, feature_names=names, loss_function=sq_loss, n_inner_samples=n,
+                                  storage=st_obj, imputer=MarginalImputer(model, "product", st_obj))
+                x_data = [c04_row(100 + i, d) for i in range(2)]
+                y_data = [1.5, -0.5]
+                call = lambda: e.explain_many(x_data, y_data, verbose=False)   # noqa: E731
+                in_data = False
+            elif ex == "orig":
+                e = BatchSage(model_function=model, feature_names=names, loss_function=sq_loss, n_inner_samples=n)
+                x_data, y_data = rows, ys
+                call = lambda: e.explain_many_original(x_data, y_data, verbose=False)   # noqa: E731
+                in_data = True
+            else:
+                e = IntervalSage(model_function=model, feature_names=names, loss_function=sq_loss, n_inner_samples=n,
+                                 interval_length=10 ** 9, storage_length=m)
+                for r, yy in zip(rows[:-1], ys[:-1]):
+                    e.update_storage(r, yy)
+                e.explain_one(rows[-1], ys[-1], verbose=False)   # stores the last row; no recomputation
+                x_data, y_data = rows, ys
+                call = lambda: e.explain_one(rows[-1], ys[-1], update_storage=False, force_explain=True, verbose=False)  # noqa: E731
+                in_data = True
+            N = len(x_data)
+            for _ in range(R):
+                del model.log[:]
+                call()
+                log = model.log
+                if len(log) != N * d * n:
+                    det = ("evaluation-count", "%d single model evaluations for %d rows, expected %d"
+                           % (len(log), N, N * d * n))
+                    break
+                for i, x in enumerate(x_data):
+                    base = i * d * n
+                    order = []
+                    known = set()
+                    order_ok = True
+                    for j in range(d):
+                        inputs = log[base + j * n: base + (j + 1) * n]
+                        if in_data:
+                            # background row: the row other than the explained one that any feature points to
+                            any_other = False
+                            revealed = None
+                            for inp in inputs:
+                                tags = {c04_tag(inp[f]) for f in names}
+                                other = tags - {i}
+                                if len(other) > 1:
+                                    det = ("joint-rows-mixed", "one model input mixes rows %r" % sorted(tags))
+                                    break
+                                r_bg = next(iter(other)) if other else i
+                                if j < d - 1:
+                                    lab = "row:%s:pos%d" % (ex, i)
+                                    row_counts[(lab, r_bg)] += 1
+                                    row_trials[lab] += 1
+                                if other:
+                                    any_other = True
+                                    same = {f for f in names if inp[f] == x[f]}
+                                    revealed = same if revealed is None else (revealed & same)
+                            if det:
+                                break
+                            if order_ok and j < d - 1:
+                                if not any_other:
+                                    order_ok = False
+                                else:
+                                    new = revealed - known
+                                    if len(new) != 1 or not known <= revealed:
+                                        det = ("chain-shape", "row %d step %d reveals %r after %r"
+                                               % (i, j, sorted(revealed), sorted(known)))
+                                        break
+                                    order.append(next(iter(new)))
+                                    known = revealed
+                            elif order_ok and j == d - 1:
+                                rest = [f for f in names if f not in known]
+                                if len(rest) == 1:
+                                    order.append(rest[0])
+                                else:
+                                    order_ok = False
+                        else:
+                            revealed, infos = decode_step(inputs, x)
+                            new = revealed - known
+                            if len(new) != 1 or not known <= revealed:
+                                det = ("chain-shape", "row %d step %d reveals %r after %r"
+                                       % (i, j, sorted(revealed), sorted(known)))
+                                break
+                            order.append(next(iter(new)))
+                            known = revealed
+                            imputed = [f for f in names if f not in revealed]
+                            for tags in infos:
+                                if not imputed:
+                                    continue
+                                if st == "joint":
+                                    rs_ = {tags[f] for f in imputed}
+                                    if len(rs_) != 1:
+                                        det = ("joint-rows-mixed", "joint strategy imputed %r from rows %r"
+                                               % (imputed, sorted(rs_)))
+                                        break
+                                    lab = "row:many:pos%d:step%d" % (i, j)
+                                    row_counts[(lab, next(iter(rs_)))] += 1
+                                    row_trials[lab] += 1
+                                else:
+                                    for f in imputed:
+                                        lab = "row:many:pos%d:%s" % (i, f)
+                                        row_counts[(lab, tags[f])] += 1
+                                        row_trials[lab] += 1
+                                    if j == 0 and len(imputed) >= 2 and i == 0:
+                                        pair_counts[(tags[imputed[0]], tags[imputed[1]], imputed[0], imputed[1])] += 1
+                            if det:
+                                break
+                    if det:
+                        break
+                    if order_ok and len(order) == d:
+                        order_counts[("pos%d" % i,) + tuple(order)] += 1
+                    else:
+                        probes["order_unidentifiable"] += 1
+                if det:
+                    break
+        if det:
+            return fam, det, {"draw_ops": R, "probes": dict(probes)}
+        # ---- hypotheses ------------------------------------------------------------------------------
+        nperm = math.factorial(d)
+        if ex in ("sage",):
+            tot = sum(order_counts.values())
+            for order in itertools.permutations(names):
+                fam.add("order:%s:%s" % (ex, ">".join(order)), order_counts[tuple(order)], tot, 1.0 / nperm)
+        elif ex != "pfi":
+            positions = sorted({k[0] for k in order_counts})
+            for pos in positions:
+                tot = sum(c for k, c in order_counts.items() if k[0] == pos)
+                for order in itertools.permutations(names):
+                    fam.add("order:%s:%s:%s" % (ex, pos, ">".join(order)), order_counts[(pos,) + tuple(order)], tot,
+                            1.0 / nperm)
+        n_rows = m
+        for lab, trials in sorted(row_trials.items()):
+            for r in range(n_rows):
+                fam.add("%s:r%d" % (lab, r), row_counts[(lab, r)], trials, 1.0 / n_rows)
+        if pair_counts:
+            keys = list(pair_counts)
+            fa, fb = keys[0][2], keys[0][3]
+            if all(k[2] == fa and k[3] == fb for k in keys):
+                tot = sum(pair_counts.values())
+                for ra in range(m):
+                    for rb in range(m):
+                        fam.add("pair:%s:%s,%s:r%d,r%d" % (ex, fa, fb, ra, rb), pair_counts[(ra, rb, fa, fb)], tot,
+                                1.0 / (m * m))
+        # ---- Monte-Carlo mean vs exhaustive enumeration --------------------------------------------------
+        extra_det = None
+        if expected is not None and n_contrib > 1000:
+            probes["mc_mean_checked"] += 1
+            for f in names:
+                mean = contrib_sum[f] / n_contrib
+                var = max(contrib_sq[f] / n_contrib - mean * mean, 0.0)
+                se = math.sqrt(var / n_contrib)
+                dev = abs(mean - expected[f])
+                if se == 0.0:
+                    bad = dev > 1e-9 * max(1.0, abs(expected[f]))
+                    z = float("inf") if bad else 0.0
+                else:
+                    z = dev / se
+                    bad = z > 7.5 and dev > 1e-9 * max(1.0, abs(expected[f]))
+                if bad:
+                    # expressed as a (pseudo-)hypothesis so that the confirmation batch applies to it too
+                    fam.add("mcmean:%s:%s" % (ex, f), 0, 1, 1.0)
+                    probes["mc_mean_z_exceeded"] += 1
+                    extra_det = (f, mean, expected[f], z)
+        ex_info = {"draw_ops": R * (1 + d * n), "probes": dict(probes)}
+        if extra_det:
+            ex_info["mc"] = extra_det
+        return fam, None, ex_info
+
+    def reductions(self, plan):
+        out = []
+        c = plan["cell"]
+        if c["n"] > 1:
+            p = copy.deepcopy(plan)
+            p["cell"]["n"] = 1
+            out.append(p)
+        if c["m"] > 2:
+            p = copy.deepcopy(plan)
+            p["cell"]["m"] = c["m"] - 1
+            out.append(p)
+        if c["d"] > 2:
+            p = copy.deepcopy(plan)
+            p["cell"]["d"] = c["d"] - 1
+            out.append(p)
+        if c["storage"] != "batch":
+            p = copy.deepcopy(plan)
+            p["cell"]["storage"] = "batch"
+            out.append(p)
+        return out
+
+
+CHECKS = [C08Check, C09Check, C04Check]
